@@ -296,9 +296,9 @@ Definition finish {R} (s : TL) (a b : Z) (k : TL -> prog R) : prog R := Emit (ev
 Definition out_of_fuel {R} (s : TL) (k : TL -> prog R) : prog R := Emit [EvCli "outoffuel"%string []] (k s).
 
 Fixpoint insert_loop {R} (fuel : nat) (s : TL) (key : Z) (leaf : ptr) (slots : list nat) (ni : option ptr)
-  (k : TL -> bool -> prog R) (kf : prog R) {struct fuel} : prog R :=
+  (k : TL -> bool -> prog R) (kf : TL -> prog R) {struct fuel} : prog R :=
   match fuel with
-  | O => kf
+  | O => kf s
   | S f =>
       srch fuel s slots key st0 (fun r found =>
         if found then k s false
@@ -312,7 +312,7 @@ Fixpoint insert_loop {R} (fuel : nat) (s : TL) (key : Z) (leaf : ptr) (slots : l
               let (n, s') := new_obj s 1 0 in
               Act (a_st_flags n 1) (fun _ => Act (a_st_emp n 0) (fun _ => attempt n s'))
           end
-        else insert_loop f s key leaf slots ni k kf) kf
+        else insert_loop f s key leaf slots ni k kf) (kf s)
   end.
 
 Definition op_insert {R} (fuel : nat) (s : TL) (k : nat) (cont : TL -> prog R) : prog R :=
@@ -323,7 +323,7 @@ Definition op_insert {R} (fuel : nat) (s : TL) (k : nat) (cont : TL -> prog R) :
       (let (slots, s2) := allocn 6 s1 in
        insert_loop fuel s2 (Z.of_nat k) leaf slots None
          (fun s' b => g_free_all s' slots (fun s'' => g_clear s'' gi (finish (free1 gi s'') (if b then 1 else 0) 0 cont)))
-         (g_free_all s2 slots (fun s'' => g_clear s'' gi (out_of_fuel (free1 gi s'') cont))))).
+         (fun s' => g_free_all s' slots (fun s'' => g_clear s'' gi (out_of_fuel (free1 gi s'') cont))))).
 
 (** *** erase *)
 Definition help_marked {R} (fuel : nat) (s : TL) (r : sres) (op : ptr) (k : prog R) (kf : prog R) : prog R :=
